@@ -7,6 +7,7 @@
    the state reached together with the exception.  A set argument is the list of its elements in
    iteration order, and every statement below holds for every such list. *)
 From AJ Require Import Common.Util Graph.GSpecs Graph.Build Graph.BuildProofs Graph.BuildSpecs.
+From Coq Require Import Permutation.
 
 (* code and documentation agree on every program: same exception, same sequences (as lists), same
    sequence schedulers, same required sets and scheduler contents (as sets) *)
@@ -131,6 +132,15 @@ Theorem C19_remove : forall st s j,
 Proof. exact remove_spec. Qed.
 Print Assumptions C19_remove.
 
+(* the order in which the elements of set arguments are listed (at any nesting depth) changes
+   neither whether the program raises, nor -- when it does not -- any required set, scheduler
+   content or sequence *)
+Theorem C19_set_order : forall p p', Forall2 stmt_perm p p' ->
+  snd (exec_code p) = snd (exec_code p') /\
+  (snd (exec_code p) = None -> st_equiv (fst (exec_code p)) (fst (exec_code p'))).
+Proof. exact C19_set_order_main. Qed.
+Print Assumptions C19_set_order.
+
 (* the executable statement used to judge implementation outcomes means agreement with the
    documentation ... *)
 Theorem C19_spec_meaning : forall p n nq o_req o_mem o_seqs o_ss o_err,
@@ -181,3 +191,20 @@ Example C19_nonvacuous :
   c19_spec_b ex_prog 6 3 (req (fst o)) (members (fst o)) (seqs (fst o)) (seq_sched (fst o)) 1 = true /\
   c19_spec_b ex_prog 6 3 (req (fst o)) (members (fst o)) (seqs (fst o)) (seq_sched (fst o)) 0 = false.
 Proof. vm_compute. repeat split. Qed.
+
+(* C19_set_order is not vacuous (a set nested in a tuple, listed in two orders), and its restriction
+   to runs without exception is needed: what a failing remove=True has already removed depends on
+   the order ({1,2} minus the set {1,3}: listed [1;3] leaves {2}, listed [3;1] leaves {1,2}). *)
+Example C19_set_order_nonvacuous :
+  let pre := [NewJob 1 ANone None; NewJob 2 ANone None; NewJob 0 (AList [AJob 1; AJob 2]) None] in
+  let p := pre ++ [Requires 0 [ATuple [ANone; ASet [AJob 1; AJob 3]]] true] in
+  let p' := pre ++ [Requires 0 [ATuple [ANone; ASet [AJob 3; AJob 1]]] true] in
+  Forall2 stmt_perm p p' /\
+  snd (exec_code p) = Some KeyError /\ snd (exec_code p') = Some KeyError /\
+  req (fst (exec_code p)) 0 = [2] /\ req (fst (exec_code p')) 0 = [1; 2].
+Proof.
+  split; [|vm_compute; repeat split].
+  repeat (apply Forall2_cons; [apply sp_refl|]). apply Forall2_cons; [|apply Forall2_nil].
+  apply sp_requires. apply (ap_in_list [] _ _ []). apply (ap_in_tuple [ANone] _ _ []).
+  apply ap_set. apply perm_swap.
+Qed.
